@@ -879,7 +879,55 @@ def _arg_of(ctx, callterm, qual, pname):
     return None
 
 
+# ------------------------------------------------------- PARAMLIVE / EMPTYSAFE
+
+
+def rule_paramlive(ctx):
+    """Every named parameter of a task's evaluate() (and of the metrics() bundle it delegates to) reaches a call:
+    a parameter that is accepted and documented but flows nowhere is silently ignored through evaluate()
+    while the same value passed to the underlying function has an effect."""
+    R = "C03.PARAMLIVE"
+    quals = [em.qual for em in eval_models(ctx).values()] + ["multipitch.metrics"]
+    for q in sorted(set(quals)):
+        f = ctx.program.func(q, R)
+        s = ctx.S.get(q)
+        used = set()
+        for c in s.calls():
+            for a in list(c.args) + [v for _, v in c.kw]:
+                used |= tm.params_of(a)
+            if c.base is not None:
+                used |= tm.params_of(c.base)
+        for r in s.returns:
+            used |= tm.params_of(r.term)
+        for m in s.by_kind("mutate"):
+            if m.val is not None and hasattr(m.val, "op"):
+                used |= tm.params_of(m.val)
+        for p in f.params:
+            yield ob(R, f, "%s:param:%s" % (q, p), p in used, ("parameter %s reaches a call / a stored score" % p) if p in used else "parameter %s of %s is accepted but never used: the value is silently dropped" % (p, q))
+
+
+def rule_emptysafe(ctx):
+    """Shared with C01.COUNTGUARD: a division by the size of an input collection is reached only when that collection
+    is non-empty, so evaluate() returns its mapping (zeros) for empty annotations instead of raising ZeroDivisionError."""
+    from . import c01
+
+    for o in c01.rule_countguard(ctx, rule="C03.EMPTYSAFE"):
+        yield o
+
+
+def rule_bundlekw(ctx):
+    """Shared with C07.CHROMATWIN: inside multipitch.metrics both true-positive computations are reached through
+    filter_kwargs with the caller's keywords, so `window` passed to evaluate() acts on every entry."""
+    from . import c07
+
+    for o in c07.rule_chromatwin(ctx):
+        if o.construct == "multipitch.metrics:same-keywords":
+            o.rule = "C03.BUNDLEKW"
+            yield o
+
+
 RULES = [
+    ("C03.BUNDLEKW", 1, rule_bundlekw),
     ("C03.ARITY", 230, rule_arity),
     ("C03.SCALAR", 126, rule_scalar),
     ("C03.KEYSET", 166, rule_keyset),
@@ -892,4 +940,6 @@ RULES = [
     ("C03.UNPACKORDER", 180, rule_unpackorder),
     ("C03.PREPROC", 26, rule_preproc),
     ("C03.PREPROC", 20, rule_preproc_chord),
+    ("C03.PARAMLIVE", 49, rule_paramlive),
+    ("C03.EMPTYSAFE", 23, rule_emptysafe),
 ]
